@@ -19,6 +19,9 @@ type c02Case struct {
 	Order   []int  // arrival order: permutation of 0..n-1
 	Drain   []bool // reader drains everything available after arrival k
 	Reuse   bool   // the caller reuses one receive buffer for every arriving frame (as switchboard.deplex does)
+	// ReadSizes (cyclic) are the reader's buffer sizes: 0 = 64 KiB, -1 = exactly half of what is readable at that
+	// moment, -2 = exactly all of it, k > 0 = k bytes
+	ReadSizes []int `json:",omitempty"`
 }
 
 func c02Payload(i int, size int, base uint64) []byte {
@@ -71,6 +74,29 @@ func c02Run(c c02Case) (vk.Result, error) {
 	closedReported := false
 	shared := make([]byte, 0, 65536)
 	rbuf := make([]byte, 1<<16)
+	nReads := 0
+	target := func(avail int) []byte {
+		if len(c.ReadSizes) == 0 {
+			return rbuf
+		}
+		sz := c.ReadSizes[nReads%len(c.ReadSizes)]
+		nReads++
+		switch {
+		case sz == -1:
+			sz = (avail + 1) / 2
+		case sz == -2:
+			sz = avail
+		case sz == 0:
+			sz = len(rbuf)
+		}
+		if sz < 1 {
+			sz = 1
+		}
+		if sz > len(rbuf) {
+			rbuf = make([]byte, sz)
+		}
+		return rbuf[:sz]
+	}
 	for k, i := range c.Order {
 		f := &Frame{StreamID: 1, Seq: c.Base + uint64(i)}
 		if c.Closing && i == n-1 {
@@ -116,11 +142,18 @@ func c02Run(c c02Case) (vk.Result, error) {
 				return res, vk.Violatef("after arrival %d: %d bytes readable, model expects %d", k, avail, handedBytes-len(got))
 			}
 			for avail > 0 {
-				m, err := sb.Read(rbuf)
+				tb := target(avail)
+				if have := sb.buf.buf.Len(); have != avail {
+					return res, vk.Violatef("after arrival %d and %d reads: %d bytes readable, model expects %d (bytes handed over must stay readable until read)", k, nReads, have, avail)
+				}
+				m, err := sb.Read(tb)
 				if err != nil {
 					return res, vk.Violatef("Read returned %v with %d bytes available", err, avail)
 				}
-				got = append(got, rbuf[:m]...)
+				if m > avail {
+					return res, vk.Violatef("Read returned %d bytes, only %d had been handed over", m, avail)
+				}
+				got = append(got, tb[:m]...)
 				avail -= m
 			}
 			if !bytes.Equal(got, want[:len(got)]) {
@@ -134,11 +167,18 @@ func c02Run(c c02Case) (vk.Result, error) {
 		return res, vk.Violatef("at the end %d bytes readable, model expects %d", avail, len(want)-len(got))
 	}
 	for avail > 0 {
-		m, err := sb.Read(rbuf)
+		tb := target(avail)
+		if have := sb.buf.buf.Len(); have != avail {
+			return res, vk.Violatef("final drain after %d reads: %d bytes readable, model expects %d (bytes handed over must stay readable until read)", nReads, have, avail)
+		}
+		m, err := sb.Read(tb)
 		if err != nil {
 			return res, vk.Violatef("final Read returned %v", err)
 		}
-		got = append(got, rbuf[:m]...)
+		if m > avail {
+			return res, vk.Violatef("final Read returned %d bytes, only %d had been handed over", m, avail)
+		}
+		got = append(got, tb[:m]...)
 		avail -= m
 	}
 	if !bytes.Equal(got, want) {
@@ -307,6 +347,12 @@ func c02Gen(rt *rapid.T) c02Case {
 	}
 	c.Order = order
 	c.Drain = rapid.SliceOfN(rapid.Bool(), n, n).Draw(rt, "drain")
+	if rapid.IntRange(0, 2).Draw(rt, "readsizes") > 0 {
+		m := rapid.IntRange(1, 4).Draw(rt, "nrs")
+		for i := 0; i < m; i++ {
+			c.ReadSizes = append(c.ReadSizes, rapid.SampledFrom([]int{0, -1, -1, -2, 1, 100, 4096, 200000}).Draw(rt, "rs"))
+		}
+	}
 	return c
 }
 
